@@ -33,5 +33,15 @@ CLAIMS = {
     note="Trusted: sympy, z3, symbolic shims, uniqueness of linear IVPs. Floats are reals; regime coverage is per branch-decision set of each witness. "
          "Not covered deductively: coupled path through scipy.linalg.eig, SolveExp1/2 (scipy expm), pre_eig, conditioning grades.",
     technique="ODE-lemma contracts on real functions run symbolically (sympy); loop-invariant VCs (z3) under a row-wise abstraction; bounded float replay vs expm"),
+ "C16": dict(
+    text="Proof by dynamic symbolic execution of the real cla.extrema / nan_argmax / nan_argmin / nan_absmax / maxmin (all paths, values symbolic reals+NaN, "
+         "z3): for every configuration (1 or 2 columns, first call or update, with/without abscissa, with/without per-case columns) each path preserves the "
+         "envelope representation invariant Env(S) -> Env(S + {case}) over an ABSTRACT multiset S of earlier cases (so every history and order is covered "
+         "by induction): stored max/min bound every non-NaN case value and are attained by a case whose label and abscissa are the stored ones; per-case "
+         "columns hold this case; frame: no aliasing with, and no modification of, the incoming table. apply_uf (documented scaling table, static/dynamic "
+         "split, cache reuse in any call order, inputs untouched) is checked on a symbolic 4-mode solution (bounded in size).",
+    note="Trusted: z3, the DSE shim (object arrays of (real, isnan)), np.nanargmax/nanargmin/isnan shims. Row-wise argument: proved for a generic single row. "
+         "Floats are reals+NaN. Not covered: DR_Results/pandas plumbing, SRS envelopes, form_extreme/merge bookkeeping beyond the extrema kernel, reports.",
+    technique="contracts (representation invariant over an abstract multiset, frame) checked on every path of the real function by dynamic symbolic execution + z3"),
 }
 NOT_APPLICABLE = {}
